@@ -197,7 +197,10 @@ struct H {
       VP_CHECK(c, ++guard <= 16 * n + 600, "push-no-progress", "%s: mpt_queue_push makes no progress: %zu of %zu bytes after %zu calls (capacity %zu, len %zu)", kName[fr], total, n, guard, sq->max,
                sq->len);
       if (wrapped(sd())) c.label("sender:push-on-wrapped");
-      else if (sq->off) c.label("sender:push-at-offset");
+      if (!sq->off) c.label("push:aligned");  // the branch of mpt_queue_push this call will take
+      else if (sq->_state.done >= sq->max - sq->off) c.label("push:upper-part");
+      else if (sq->max - sq->off - sq->_state.done >= sq->_state.scratch) c.label("push:lower-part");
+      else c.label("push:out-of-band");
       ssize_t r = mpt_queue_push(sq, n - total, n ? p + total : 0);
       c.logf("  mpt_queue_push(%zu%s) = %zd", n - total, n ? "" : ", terminate", r);
       logq("   ");
@@ -217,7 +220,7 @@ struct H {
     }
   }
   void start_message() {
-    size_t maxlen = c.choose<size_t>({24, 24, 120, 300, 300, 700});
+    size_t maxlen = c.choose<size_t>({0, 3, 6, 24, 24, 120, 300, 300, 700});
     todo = msggen::message(c, maxlen, false);
     if (is_zpe(fr) && zpe_message_fix(todo, false) && c.exclude(kZpeStall)) zpe_message_fix(todo, true);
     todo_off = 0;
@@ -250,10 +253,10 @@ struct H {
       todo_off = todo.size();
     }
     c.logf("end message #%zu", sent.size());
-    size_t before = sq->_state.done;
+    size_t before = wire.size() + sq->_state.done;  // finished bytes, flushed or not
     push(0, 0);
-    VP_CHECK(c, sq->_state.scratch == 0 && sq->_state.done > before, "encoder-accounting", "%s: done %zu -> %zu, scratch %zu after terminating a message", kName[fr], before, sq->_state.done,
-             sq->_state.scratch);
+    VP_CHECK(c, sq->_state.scratch == 0 && wire.size() + sq->_state.done > before, "encoder-accounting", "%s: finished bytes %zu -> %zu, scratch %zu after terminating a message", kName[fr], before,
+             wire.size() + sq->_state.done, sq->_state.scratch);
     VP_CHECK(c, cur == todo, "harness", "model lost bytes");
     sent.push_back(cur);
     open = false;
@@ -505,13 +508,13 @@ struct H {
   }
 
   void run() {
-    sgrow_style = (int)c.weighted({3, 2, 2});
+    sgrow_style = (int)c.weighted({2, 2, 4});
     size_t cs = draw_capacity(c), cr = draw_capacity(c);
     preroll(c, sd(), cs, cs ? c.range(0, cs - 1) : 0, "sender");
     preroll(c, rd(), cr, cr ? c.range(0, cr - 1) : 0, "receiver");
     c.logf("framing %s, sender growth style %d", kName[fr], sgrow_style);
     while (c.more()) {
-      switch (c.weighted({6, 2, 3, 5, 5, 1, 1, 1})) {
+      switch (c.weighted({6, 2, 5, 5, 5, 1, 1, 1})) {
         case 0: op_push(); break;
         case 1: op_end(); break;
         case 2: op_flush(); break;
@@ -667,10 +670,23 @@ static void run_streams(Ctx &c, int fr) {
       }
     }
   };
-  auto pump_in = [&]() {  // sender socket -> harness
+  size_t wire_seen = 0, wire_frame_start = 0, wire_frames = 0;
+  auto pump_in = [&]() {  // sender socket -> harness; every complete frame must be the encoding of the sent message
     uint8_t buf[4096];
     ssize_t n;
     while ((n = read(a[1], buf, sizeof buf)) > 0) mid.insert(mid.end(), buf, buf + n);
+    for (; wire_seen < mid.size(); wire_seen++) {
+      if (mid[wire_seen]) continue;
+      VP_CHECK(c, wire_frames < sent.size(), "wire-mismatch", "%s: streams: frame #%zu on the wire but only %zu messages were finished", kName[fr], wire_frames, sent.size());
+      std::vector<uint8_t> out;
+      ref::Verdict v = ref::decode((ref::Dialect)fr, mid.data() + wire_frame_start, wire_seen - wire_frame_start, out);
+      if (v != ref::WellFormed || out != sent[wire_frames]) {
+        c.loghex("  frame", mid.data() + wire_frame_start, wire_seen + 1 - wire_frame_start);
+        c.fail("wire-mismatch", "%s: streams: frame #%zu written by the sender stream does not decode to the %zu byte message that was pushed", kName[fr], wire_frames, sent[wire_frames].size());
+      }
+      ++wire_frames;
+      wire_frame_start = wire_seen + 1;
+    }
   };
   auto tx_flush = [&]() {
     int r = mpt_stream_flush(tx);
@@ -733,7 +749,13 @@ static void run_streams(Ctx &c, int fr) {
       case 3: {
         size_t pend = mid.size() - mid_off;
         if (!pend) break;
-        size_t k = c.weighted({2, 2, 1}) == 0 ? 1 : c.range(1, pend < 64 ? pend : 64);
+        size_t k;
+        switch (c.weighted({2, 3, 1, 1})) {
+          case 0: k = 1; break;
+          case 1: k = c.range(1, pend < 64 ? pend : 64); break;
+          case 2: k = c.range(1, pend); break;
+          default: k = pend;
+        }
         forward(k);
         rx_step();
         break; }
